@@ -21,8 +21,12 @@ elab "#audit_module " m:ident : command => do
       if modName == target then
         -- skip compiler-generated auxiliaries (equation lemmas, match splitters, …)
         if name.isInternalDetail then continue
-        -- equation lemmas of imported definitions are realised lazily in the importing module: not ours
-        if !(target.isPrefixOf name) then continue
+        -- auto-generated companions (equation lemmas of imported definitions are realised lazily in the
+        -- importing module, injectivity/sizeOf lemmas of structures, …) are not proof obligations of ours
+        let last := match name with | .str _ s => s | _ => ""
+        if last == "eq_def" || last == "injEq" || last == "inj" || last == "sizeOf_spec" || last == "induct"
+            || last == "induct_unfolding" || last == "fun_cases" || last == "fun_cases_unfolding"
+            || (last.startsWith "eq_" && (last.drop 3).all Char.isDigit) then continue
         let axs ← liftCoreM (Lean.collectAxioms name)
         let axl := axs.toList.map toString
         logInfo m!"AUDIT-THEOREM {name} AXIOMS {axl}"
